@@ -894,9 +894,14 @@ def main() -> int:
         with open(args.out + ".tmp", "w", encoding="utf-8") as f:
             f.write(text)
         os.replace(args.out + ".tmp", args.out)
-    with open(args.json + ".tmp", "w", encoding="utf-8") as f:
-        json.dump(js, f, indent=1, sort_keys=True)
-    os.replace(args.json + ".tmp", args.json)
+    if os.path.exists(args.json) and not os.path.isfile(args.json):
+        # a device (e.g. /dev/null, "do not keep the JSON"): write through it, never replace it
+        with open(args.json, "w", encoding="utf-8") as f:
+            json.dump(js, f, indent=1, sort_keys=True)
+    else:
+        with open(args.json + ".tmp", "w", encoding="utf-8") as f:
+            json.dump(js, f, indent=1, sort_keys=True)
+        os.replace(args.json + ".tmp", args.json)
     print(f"EXTRACT-OK changed={'yes' if changed else 'no'} sha={hashlib.sha1(text.encode()).hexdigest()[:12]}")
     return 0
 
